@@ -13,7 +13,6 @@ import (
 
 func customRoutes(cfg *config.Custom, ch chan string) {
 
-	var Routes *[]route.RouteDef
 	var trans *http.Transport
 	var URL string
 
@@ -65,6 +64,9 @@ func customRoutes(cfg *config.Custom, ch chan string) {
 			continue
 		}
 		log.Printf("[DEBUG] Custom Registry begin decoding json %s \n", time.Now())
+		// decode into a new list every time: the table published from the previous poll shares the tags and
+		// options of the list it was built from
+		var Routes *[]route.RouteDef
 		decoder := json.NewDecoder(resp.Body)
 		err = decoder.Decode(&Routes)
 		if err != nil {
